@@ -28,6 +28,24 @@ pub fn pad_id(f: &mut fmt::Formatter<'_>, prefix: u8, id: u64) -> fmt::Result {
     f.pad(core::str::from_utf8(&buf[n..]).unwrap_or("?"))
 }
 
+/// `Debug` of a payload object. In the alternate form (`{:#?}`) some objects render over several lines, the way a
+/// tuple or struct element does (`(\n    k12,\n)`): a container's pretty printer has to indent such an element
+/// exactly as the standard `debug_map` / `debug_set` / `debug_list` builders do. Which objects do is a function of
+/// the identity alone, so the mirror renders the same.
+pub fn dbg_id(f: &mut fmt::Formatter<'_>, prefix: u8, id: u64) -> fmt::Result {
+    struct Tok(u8, u64);
+    impl fmt::Debug for Tok {
+        fn fmt(&self, f: &mut fmt::Formatter<'_>) -> fmt::Result {
+            pad_id(f, self.0, self.1)
+        }
+    }
+    if f.alternate() && id % 4 == 1 {
+        f.debug_tuple("").field(&Tok(prefix, id)).finish()
+    } else {
+        pad_id(f, prefix, id)
+    }
+}
+
 /// The shape filler: what else a payload object carries besides its identity.
 pub trait Fill: 'static {
     const HEAP: bool;
@@ -225,7 +243,7 @@ impl<F: Fill> fmt::Debug for SimKey<F> {
         if env::fmt_elem_fails() {
             return Err(fmt::Error);
         }
-        pad_id(f, b'k', p.id)
+        dbg_id(f, b'k', p.id)
     }
 }
 
@@ -332,7 +350,7 @@ impl<F: Fill> fmt::Debug for SimVal<F> {
         if env::fmt_elem_fails() {
             return Err(fmt::Error);
         }
-        pad_id(f, b'v', p.id)
+        dbg_id(f, b'v', p.id)
     }
 }
 
@@ -418,7 +436,7 @@ impl fmt::Debug for ZKey {
         if env::fmt_elem_fails() {
             return Err(fmt::Error);
         }
-        pad_id(f, b'k', 0)
+        dbg_id(f, b'k', 0)
     }
 }
 impl fmt::Display for ZKey {
@@ -496,7 +514,7 @@ impl fmt::Debug for ZVal {
         if env::fmt_elem_fails() {
             return Err(fmt::Error);
         }
-        pad_id(f, b'v', 0)
+        dbg_id(f, b'v', 0)
     }
 }
 impl fmt::Display for ZVal {
@@ -590,7 +608,7 @@ impl fmt::Debug for PKey {
         if env::fmt_elem_fails() {
             return Err(fmt::Error);
         }
-        pad_id(f, b'k', p.id)
+        dbg_id(f, b'k', p.id)
     }
 }
 impl fmt::Display for PKey {
@@ -665,7 +683,7 @@ impl fmt::Debug for PVal {
         if env::fmt_elem_fails() {
             return Err(fmt::Error);
         }
-        pad_id(f, b'v', p.id)
+        dbg_id(f, b'v', p.id)
     }
 }
 impl fmt::Display for PVal {
